@@ -112,6 +112,27 @@ Proof.
   repeat split; apply Rltb_true; lra.
 Qed.
 
+(* 2-D normalisation trnorm2 (added to /repo by fix 7bb8ca6; SO2.norm() / SE2.norm() call it): the unit vector along the
+   second column and its perpendicular, for ANY matrix on the path (second column not (nearly) zero) *)
+Ltac so2_norm_core := sqrt_all; unfold SO2; repeat split; (field_simplify_eq; [ poly_nsatz | auto ]).
+Lemma C01_trnorm2 : forall (X2 : M22 R) (X3 : M33 R),
+  (pc_tr_trnorm2_so2 Rops X2 -> SO2 (tr_trnorm2_so2 Rops X2)) /\ (pc_tr_trnorm2_se2 Rops X3 -> SE2 (tr_trnorm2_se2 Rops X3)).
+Proof.
+  intros X2 X3. split.
+  - open_tr. pc_facts. so2_norm_core.
+  - open_tr. pc_facts. split; [ so2_norm_core | reflexivity ].
+Qed.
+Theorem C01_norm2_constructors : forall (X2 : M22 R) (X3 : M33 R),
+  (pc_tr_trnorm2_so2 Rops X2 -> SO2 (tr_trnorm2_so2 Rops X2)) /\ (pc_tr_trnorm2_se2 Rops X3 -> SE2 (tr_trnorm2_se2 Rops X3)).
+Proof. exact C01_trnorm2. Qed.
+Print Assumptions C01_norm2_constructors.
+Example C01_trnorm2_path_nonvacuous : pc_tr_trnorm2_so2 Rops ((1, 0), (0, 2)).
+Proof.
+  autounfold with smgen. sm_simpl.
+  assert (v : sqrt (0 * 0 + 2 * 2) = 2) by (replace (0*0+2*2) with (2*2) by ring; apply sqrt_square; lra).
+  rewrite v. apply Rltb_true. lra.
+Qed.
+
 Theorem C01_frame_constructors : forall (o a : V3 R) (X3 : M33 R) (X4 : M44 R),
   (pc_tr_oa2r Rops o a -> SO3 (tr_oa2r Rops o a)) /\ (pc_tr_SO3_OA Rops o a -> SO3 (tr_SO3_OA Rops o a)) /\
   (pc_tr_oa2tr Rops o a -> SE3 (tr_oa2tr Rops o a)) /\ (pc_tr_SE3_OA Rops o a -> SE3 (tr_SE3_OA Rops o a)) /\
